@@ -1,5 +1,6 @@
 """C12 obligations (DESIGN §4.12)."""
 from vp.runner import Ob, finding_open
+from vp.props import c10 as _c10
 
 INFO = {
     "design_ref": "§4.12",
@@ -36,4 +37,7 @@ def obligations(tier):
     obs.append(Ob("L1.hg_commit_logfile", "c12.py", "hg_commit_logfile", {"len": ln}, timeout=t))
     obs.append(Ob("twin.argv_reached", "c12.py", "twin_argv_never_four", {"len": ln}, expect="refute", timeout=60))
     obs.append(Ob("L2.shorthand", "c12.py", "shorthand", {}, timeout=t))
+    # L3: the update command hands the rendered templates on: configured templates verbatim (placeholders only), OLD/NEW shorthand
+    # only for the command line options (skeleton shared with C10)
+    obs += [o for o in _c10.obligations(tier) if o.name.startswith("L3.update_skeleton[!dry") and o.name.endswith(",gate]")]
     return obs
